@@ -74,6 +74,7 @@ var relevant = map[string][]string{
 	"C08": {"probe:keyed_pick_home_down_fallback", "keyed_pick_started"},
 	"C09": {"probe:rr_pick", "probe:rr_pick_waiting", "rr_bind_pick_started"},
 	"C10": {"ev:PickReturn"},
+	"C12": {"ev:PickInvoke"},
 	"C17": {"ev:PickReturn"},
 	"C20": {"ev:UpdateAddresses", "fault:resolver_error"},
 }
